@@ -387,3 +387,91 @@ Proof.
     rewrite !nonce_tail in En by assumption. apply Htail. congruence.
   - unfold aad_recv in Ea. rewrite Hfin in Ea. eapply Hno. first [exact Ea|symmetry; exact Ea].
 Qed.
+
+(* ---- reading on after errors ---------------------------------------------- *)
+(* Once a receiver has accepted its first protected frame, a failed frame leaves it exactly as
+   it was (the counter in particular), so whatever it accepts afterwards is still the sender's
+   next frame: across any number of errors the accepted frames are a prefix of what was sent. *)
+Fixpoint recv_frames_all (s : stream) (fs : list frame) : stream * list (bytes * N) :=
+  match fs with
+  | [] => (s, [])
+  | f :: r =>
+      match recv_frame_we s f with
+      | (s1, SOk x) => let '(s2, l) := recv_frames_all s1 r in (s2, x :: l)
+      | (s1, SErr _) => recv_frames_all s1 r
+      end
+  end.
+
+Lemma fail_decrypt_id s n : fin_recv_aad s = true -> fail_decrypt s n = s.
+Proof.
+  intro Hf. unfold fail_decrypt.
+  destruct ((if dec_ctr s =? 0 then IvLenRecv + MinTagLen else MinTagLen) <=? n); [|reflexivity].
+  destruct s; cbn in *. subst. reflexivity.
+Qed.
+
+Lemma recv_we_fail_established B f B1 e :
+  fin_recv_aad B = true -> recv_frame_we B f = (B1, SErr e) -> B1 = B.
+Proof.
+  intros Hf. unfold recv_frame_we, recv_frame_gen.
+  destruct (max_wire B <? body_len (f_body f)); [intro E; inversion E; reflexivity|].
+  destruct (FlagMaxRecvWE <? f_flag f); [intro E; inversion E; reflexivity|].
+  destruct (body_len (f_body f) =? 0).
+  - destruct (enc_active B); intro E; inversion E; reflexivity.
+  - unfold recv_body. destruct (enc_active B).
+    + destruct (key B) as [k|]; [|intro E; inversion E; reflexivity].
+      unfold decrypt. cbv zeta.
+      assert (Hw : forall div c,
+        match decrypt_with B k (hdr_of (f_flag f) (body_len (f_body f))) div c (body_len (f_body f)) with
+        | (s1, SOk d) => (note_recv s1 (hdr_of (f_flag f) (body_len (f_body f)) ++ d), SOk (d, f_flag f))
+        | (s1, SErr e0) => (s1, SErr e0)
+        end = (B1, SErr e) -> B1 = B).
+      { intros div c. unfold decrypt_with.
+        destruct (open k (nonce_of div (dec_ctr B)) (aad_recv B (hdr_of (f_flag f) (body_len (f_body f)))) c);
+          [discriminate|]. rewrite (fail_decrypt_id _ _ Hf). intro E; inversion E; reflexivity. }
+      destruct (f_body f) as [bs|ivo c].
+      * rewrite (fail_decrypt_id _ _ Hf). intro E; inversion E; reflexivity.
+      * destruct (dec_ctr B =? 0); destruct ivo as [iv|];
+          try (rewrite (fail_decrypt_id _ _ Hf); intro E; inversion E; reflexivity).
+        -- destruct (lenN iv =? 16); [apply Hw|rewrite (fail_decrypt_id _ _ Hf); intro E; inversion E; reflexivity].
+        -- apply Hw.
+    + destruct (f_body f); intro E; inversion E; reflexivity.
+Qed.
+
+Lemma prefix_frames_across_errors fs' : forall A B k o K tr fs A',
+  duplex A B -> key A = Some k -> encrypted A = true -> wf_send A -> reflect_safe A B o ->
+  fin_recv_aad B = true ->
+  sent A tr fs A' -> known_ok k (enc_iv A) (enc_ctr A) fs o K -> uses_only K fs' ->
+  prefix (snd (recv_frames_all B fs')) tr.
+Proof.
+  induction fs' as [|f' r' IH]; intros A B k o K tr fs A' D Hk He Hwf Hsafe Hfin Hsent HK Huse.
+  - constructor.
+  - assert (Huse2 : uses_only K r').
+    { intros g ivo ct Hin Hb. eapply Huse; [right; exact Hin|exact Hb]. }
+    cbn [recv_frames_all]. destruct (recv_frame_we B f') as [B1 [[d' fl']|e]] eqn:Er.
+    2: { rewrite (recv_we_fail_established _ _ _ _ Hfin Er).
+         exact (IH _ _ _ _ _ _ _ _ D Hk He Hwf Hsafe Hfin Hsent HK Huse2). }
+    destruct D as [P PB].
+    assert (Huse1 : forall ivo ct, f_body f' = Ct ivo ct -> K ct).
+    { intros ivo ct Hb. eapply Huse; [left; reflexivity|exact Hb]. }
+    destruct (accepted_is_next _ _ _ _ _ _ _ _ _ _ _ _ P Hk He Hwf Hsafe Hsent HK Huse1 Er)
+      as [d [fl [A1 [f [tr1 [fs1 [-> [-> [Hs [Hrest [Hflok ->]]]]]]]]]]].
+    assert (Hfl : fl <= FlagMaxRecvWE) by (destruct Hflok as [-> | ->]; vm_compute; discriminate).
+    destruct (send_recv_frame _ _ _ _ _ _ (conj P PB) Hfl Hs) as [B2 [Hr2 D2]].
+    rewrite Hr2 in Er. injection Er as <- <- <-.
+    destruct (wf_send_step _ _ _ _ _ _ Hk He Hwf Hs) as [Hwf1 [Hk1 [He1 [Hiv1 [Hc1 [Hlt Hf]]]]]].
+    destruct (recv_frames_all B2 r') as [B3 l] eqn:Erest. cbn [snd].
+    constructor.
+    assert (HK1 : known_ok k (enc_iv A1) (enc_ctr A1) fs1 o K).
+    { rewrite Hiv1, Hc1. eapply known_ok_step; [exact Hf|exact HK]. }
+    assert (Hsafe1 : reflect_safe A1 B2 o).
+    { eapply reflect_safe_step; [exact Hsafe|exact Hiv1|].
+      destruct D2 as [[_ _ Pc2 _ _ _ _ _] _]. rewrite <- Pc2, Hc1. lia. }
+    assert (Hfin2 : fin_recv_aad B2 = true).
+    { destruct D2 as [[_ _ _ _ _ Pf2 _ _] _]. rewrite <- Pf2.
+      destruct P as [_ _ _ _ _ Pf _ _]. 
+      (* the sender's first-frame flag never goes back *)
+      unfold send_frame in Hs. destruct (MaxMessageSize <? lenN d); [discriminate|].
+      rewrite Hk, He in Hs. destruct (enc_ctr A =? CounterGuard); [discriminate|].
+      cbv zeta in Hs. injection Hs as <- _. proj_simpl. reflexivity. }
+    specialize (IH _ _ _ _ _ _ _ _ D2 Hk1 He1 Hwf1 Hsafe1 Hfin2 Hrest HK1 Huse2). rewrite Erest in IH. exact IH.
+Qed.
